@@ -35,10 +35,12 @@ static uint64_t af_count_small(void)
 /* long members: rows longer than the 512-byte growth step of the sequence buffers, read from aligned FASTA, with gap
    runs directly before residue index 512 / 1024 of a row and rows of exactly 512 / 1024 residues followed by gaps */
 #define AF_NLONG 8
+/* prefix-name members: the first row's name is a prefix of later rows' names (sp|Q9 / sp|Q9.1 / sp|Q91_b), and 12 rows named SEQ1..SEQ12 */
+#define AF_NPREFIX 8
 static uint64_t af_count(int tier)
 {
         (void)tier;
-        return af_count_run() + af_count_small() + AF_NLONG;
+        return af_count_run() + af_count_small() + AF_NLONG + AF_NPREFIX;
 }
 
 struct af_member {
@@ -136,6 +138,36 @@ static int af_build(uint64_t idx, long seed, const char* tmpdir, struct af_membe
                         a->n = a->m->numseq;
                         kx_msa_rows(a->m, &a->rows, &a->names);
                         a->width = a->m->alnlen;
+                        a->valid = 1;
+                }
+                kx_set_free(&in);
+                return a->valid;
+        }else if(idx >= af_count_run() + af_count_small() + AF_NLONG){
+                int k = (int)(idx - af_count_run() - af_count_small() - AF_NLONG);
+                int rows = (k & 1) ? 12 : 4, w = (k & 2) ? 130 : 61, protein = (k & 4) ? 1 : 0, i;
+                uint64_t st = 8800 + (uint64_t)k;
+                struct kx_set in;
+                static char base[256], tmp[256];
+                static const char* PNAMES[4] = {"sp|Q9", "sp|Q9.1", "sp|Q91_b", "sp|Q9-x|Q9"};
+                const char* alpha = protein ? "LKWAVDEGST" : "ACGT";
+                kx_set_init(&in);
+                sh_random_seq(&st, alpha, w, base);
+                for(i = 0; i < rows; i++){
+                        char nm[32];
+                        sh_derive(&st, alpha, base, w, w - (i % 3), tmp);
+                        if(rows == 4){
+                                snprintf(nm, sizeof nm, "%s", PNAMES[i]);
+                        }else{
+                                snprintf(nm, sizeof nm, "SEQ%d", i + 1);
+                        }
+                        kx_set_add(&in, tmp, nm);
+                }
+                a->m = kx_make_msa(&in);
+                if(a->m && kalign_run(a->m, 1, KALIGN_TYPE_UNDEFINED, -1, -1, -1) == OK){
+                        a->n = a->m->numseq;
+                        kx_msa_rows(a->m, &a->rows, &a->names);
+                        a->width = a->m->alnlen;
+                        a->protein = (a->m->biotype == ALN_BIOTYPE_PROTEIN);
                         a->valid = 1;
                 }
                 kx_set_free(&in);
